@@ -72,6 +72,7 @@ def run(ctx):
                 corrupt(ctx, rng, s, prefix, enclen, binp, n)
     # is_* helpers agree with decode acceptance on a sample
     helpers(ctx, rng, E)
+    address_helpers(ctx, rng, E)
     ctx.require('encodes', 43 * 4)
     ctx.require('decodes', 43 * 4)
     ctx.require('corruptions', 200)
@@ -161,7 +162,40 @@ def helpers(ctx, rng, E):
                 ctx.violation('C09|helper|' + name, '%s(%s)=%r expected %r' % (name, s, got, want), {'string': s, 'class': 'helper:' + name, 'origin': None})
 
 
+def address_helpers(ctx, rng, E):
+    """Predicates that accept an address with an optional %entrypoint: the part before '%' must be a valid string of one of the
+    kinds, nothing may follow it except '%name'."""
+    table = [('is_address', ['tz1', 'tz2', 'tz3', 'tz4', 'KT1', 'sr1']), ('is_txr_address', ['txr1'])]
+    for prefix, enclen, binp, n, kind in B.KINDS:
+        if n != 20:
+            continue
+        for _ in range(3):
+            pl = bytes(rng.getrandbits(8) for _ in range(n))
+            s = B.encode_check(pl, binp)
+            variants = [(s, True), (s + '%transfer', True), (s + '%', True), (s + '1', False), (s + 'abc', False), (s + s, False), (s[:-1], False),
+                        (s + '1%ep', False), (s[:-1] + ('2' if s[-1] != '2' else '3') + '%ep', False), ('%' + s, False)]
+            for name, prefixes in table:
+                fn = getattr(E, name, None)
+                if fn is None:
+                    continue
+                for v, ok in variants:
+                    for form in (v, v.encode()):
+                        want = ok and prefix in prefixes
+                        try:
+                            got = bool(fn(form))
+                        except Exception as e:
+                            got = e
+                        ctx.count('address_helper_calls')
+                        ctx.case((name, v, type(form).__name__), nontrivial=True)
+                        if got != want:
+                            ctx.violation('C09|helper|%s|%s' % (name, 'trailing-characters' if v.startswith(s) and not ok else 'other'),
+                                          '%s(%r)=%r expected %r' % (name, form, got, want), {'string': v, 'class': 'address-helper:' + name, 'origin': None})
+
+
 def replay(ctx, case):
+    if str(case.get('class', '')).startswith('address-helper:'):
+        from pytezos.crypto import encoding as E
+        return address_helpers(ctx, ctx.rng, E)
     if 'string' in case:
         judge_corrupt(ctx, case['string'], case.get('class', 'replay'), case.get('origin'))
     else:
